@@ -224,8 +224,18 @@ func lockedBefore(ins ssa.Instruction) bool {
 			if c, ok := i.(ssa.CallInstruction); ok {
 				if callee := c.Common().StaticCallee(); callee != nil {
 					s := callee.String()
-					if s == "(*sync.Mutex).Lock" || s == "(*sync.RWMutex).Lock" {
-						return true
+					if (s == "(*sync.Mutex).Lock" || s == "(*sync.RWMutex).Lock") && len(c.Common().Args) > 0 {
+						// the mutex itself must be shared: locking a copy (a
+						// mutex inside a by-value receiver or a local) excludes nobody
+						kind, root := rootOf(c.Common().Args[0], 0)
+						switch kind {
+						case "global", "freevar":
+							return true
+						case "param":
+							if _, isPtr := root.Type().(*types.Pointer); isPtr {
+								return true
+							}
+						}
 					}
 				}
 			}
